@@ -98,6 +98,8 @@ func checkC08(p *Prog, r *Report) {
 	}
 	r.floor("E3.hashframe", 10)
 	p.depsAccessorUnfiltered(r, "E2.dependencies-hashed-unfiltered", rh)
+	p.sentinelKeyRule(r, rh)
+	p.noMemoBeforePreBuild(r, "E5.rule-hash-not-memoised-before-pre-build")
 	p.hashedCommandIsExecutedCommand(r, rh)
 	p.inputGroupsConcatenated(r)
 }
@@ -240,4 +242,94 @@ func (p *Prog) runFraming(r *Report, rule string, fn *ssa.Function) {
 		}
 		r.add(Obligation{Rule: rule, Instance: inst, Site: p.pos(f.site), Func: fnName(fn), Status: st, Detail: f.detail, Key: key, Path: true})
 	}
+}
+
+// sentinelKeyRule: while preparing what goes into the rule hash, a map that is filled with user-chosen keys (the names
+// of named groups, env names, ...) must not also get an entry under a constant key standing for something else (the
+// unnamed group, a default): a user key equal to the constant overwrites or is overwritten by it, and two different
+// rules hash the same.
+func (p *Prog) sentinelKeyRule(r *Report, rh *ssa.Function) {
+	rule := "E3.no-sentinel-key-among-user-keys"
+	n, bad := 0, 0
+	var site token.Pos
+	for _, g := range p.closure([]*ssa.Function{rh}, 2, inRepoPkgs("build")) {
+		byMap := map[ssa.Value][2]bool{}
+		eachInstr(g, false, func(_ *ssa.Function, i ssa.Instruction) {
+			mu, ok := i.(*ssa.MapUpdate)
+			if !ok {
+				return
+			}
+			mk, ok := mu.Map.(*ssa.MakeMap)
+			if !ok {
+				return
+			}
+			st := byMap[mk]
+			if _, isC := mu.Key.(*ssa.Const); isC {
+				st[0] = true
+				site = mu.Pos()
+			} else {
+				for x := range backSlice(mu.Key, SliceOpts{}) {
+					if _, isNext := x.(*ssa.Next); isNext {
+						st[1] = true
+					}
+				}
+			}
+			byMap[mk] = st
+		})
+		for _, st := range byMap {
+			n++
+			if st[0] && st[1] {
+				bad++
+			}
+		}
+	}
+	if n == 0 {
+		r.ok(rule, "no local map mixes a constant key with keys taken from another map", "-", "", "no local maps are filled in the rule-hash closure")
+		return
+	}
+	r.check(bad == 0, rule, "no local map mixes a constant key with keys taken from another map", p.pos(site), fnName(rh), itoa(n)+" local map(s) in the rule-hash closure, none with both kinds of key", "a helper of the rule hash puts a constant key (e.g. \"\" for the unnamed group) into the same map as the user-chosen group names: srcs=[a,b] and srcs={\"\": [a,b]} then hash the same although only the second exports $SRCS_")
+}
+
+// noMemoBeforePreBuild: RuleHash memoises the (non-post-build) hash on the target. The pre-build function may still
+// change the command, outputs and dependencies, so nothing in buildTarget may ask for that hash before it has run.
+func (p *Prog) noMemoBeforePreBuild(r *Report, rule string) {
+	bt := p.Fn("build", "buildTarget")
+	RH := p.Fn("build", "RuleHash")
+	if bt == nil || RH == nil {
+		r.unresolved(rule, "build.buildTarget / build.RuleHash")
+		return
+	}
+	var pre []ssa.Instruction
+	eachInstr(bt, false, func(_ *ssa.Function, i ssa.Instruction) {
+		cc := callCommon(i)
+		if cc != nil && cc.IsInvoke() && cc.Method.Name() == "RunPreBuildFunction" {
+			pre = append(pre, i)
+		}
+	})
+	if len(pre) == 0 {
+		r.unresolved(rule, "the RunPreBuildFunction call in buildTarget")
+		return
+	}
+	// every function that (transitively, depth 3) calls RuleHash with postBuild == false
+	memoises := func(g *ssa.Function) bool {
+		for _, h := range p.closure([]*ssa.Function{g}, 3, inRepoPkgs("build")) {
+			if h == RH {
+				return true
+			}
+		}
+		return false
+	}
+	early := ""
+	eachInstr(bt, false, func(_ *ssa.Function, i ssa.Instruction) {
+		cc := callCommon(i)
+		if cc == nil || cc.StaticCallee() == nil || !memoises(cc.StaticCallee()) {
+			return
+		}
+		for _, pc := range pre {
+			if existsPath(bt, i, pc, nil) {
+				early = calleeName(cc) + " at " + p.pos(i.Pos())
+			}
+		}
+	})
+	r.check(early == "", rule, "buildTarget does not compute the rule hash before the pre-build function", p.pos(bt.Pos()), fnName(bt), "no call that reaches RuleHash can be followed by RunPreBuildFunction", "buildTarget asks for the rule hash ("+early+") before the pre-build function has run, and RuleHash memoises it on the target: whatever the pre-build function then changes (set_command, add_out, add_dep) is missing from the hash that is compared, recorded and used as cache key")
 }
